@@ -377,7 +377,9 @@ def check_scenario(ctx, sc, res, stats):
         ctx.dist("oracle:" + sc["kind"] + ":" + call["name"])
         if msg:
             fails.append((msg, call["name"]))
-    if sc["kind"] == "wass-formats":
+    if sc["kind"] == "wass-formats" and res.get("sv_gap", 1.0) < 1e-6:
+        stats["skipped_degenerate_svd"] = stats.get("skipped_degenerate_svd", 0) + 1
+    elif sc["kind"] == "wass-formats":
         fit = res["fit"]
         for im in ("lil", "generator"):
             msg = compare(ctx, sc, "fit:" + im, fit[im]["embedding"], fit["spmatrix"]["embedding"], margins, stats,
